@@ -563,11 +563,11 @@ def mutation_set(base, regs, rng, tier, large=False, reduced=False):
     elif not large:
         muts += [["flip", i] for i in range(8 * n)]                     # exhaustive
         muts += [["trunc", k] for k in range(n)]                        # every truncation length
-        step = 1 if tier != "quick" else 3
+        step = 2 if tier != "quick" else 3
         for p in range(0, n, step):
             muts.append(["ow", p, "%02x" % (base[p] ^ 0xFF)])
             muts.append(["ow", p, "00" if base[p] else "01"])
-        nb = 250 if tier == "quick" else 1200
+        nb = 250 if tier == "quick" else 800
     else:
         pos = set(range(0, 8 * 32))
         for a, b, lab in regs:
@@ -593,7 +593,7 @@ def mutation_set(base, regs, rng, tier, large=False, reduced=False):
                 y = rng.randrange(x + ln, b - ln + 1)
                 if base[x:x + ln] != base[y:y + ln]:
                     muts.append(["swap", x, y, ln])
-    for _ in range((20 if reduced else 50) if tier == "quick" else 500):  # insertions / deletions
+    for _ in range((20 if reduced else 50) if tier == "quick" else 300):  # insertions / deletions
         p = rng.randrange(n + 1)
         muts.append(["ins", p, rng.randbytes(rng.choice([1, 1, 2, 4, 16])).hex()])
         p = rng.randrange(n)
@@ -684,7 +684,7 @@ def explore(ctx):
         info.append({"spec": spec, "base": base, "pw": pw, "regs": regs, "hdrmode": hdrmode, "n": len(muts)})
         random.Random(ctx["seed"] + si).shuffle(muts)      # spread the slow cases (hangs) over the batches
         muts = [None] + muts
-        bs = 120 if pw is None else 100
+        bs = 250 if pw is None else 200
         for i in range(0, len(muts), bs):
             jobs.append((si, muts[i:i + bs]))
     timeout = 2.0 if tier == "quick" else 3.0
@@ -939,6 +939,18 @@ class _FakeFile:
         self.__dict__.update(d)
 
 
+def _bare_archive(**attrs):
+    """a SevenZipFile in read mode that was never opened: the real methods over scripted state"""
+    import py7zr
+    me = py7zr.SevenZipFile.__new__(py7zr.SevenZipFile)
+    base = {"mode": "r", "mp": False, "_filePassed": True, "password_protected": False, "filename": None,
+            "reporterd": None, "_block_size": 1 << 20}
+    base.update(attrs)
+    for k, v in base.items():
+        setattr(me, k, v)
+    return me
+
+
 def gen_flow_case(rng):
     """(shape tree, decs tree, python description)"""
     import lzma
@@ -1036,9 +1048,9 @@ def run_flow_impl(shape, decs, skip, tmp, call):
     fac = arch.Collect()
     try:
         if call == "testzip":
-            me = types.SimpleNamespace(fp=_FakeFp(), afterheader=0, files=flist, header=header, mp=False, password_protected=True)
+            me = _bare_archive(fp=_FakeFp(), afterheader=0, files=flist, header=header, password_protected=True)
             try:
-                r = py7zr.SevenZipFile.testzip(me)
+                r = me.testzip()
             except Exception as e:  # noqa
                 return [2, err_code(e)]
             if r is None:
@@ -1160,12 +1172,12 @@ def corr_test(ctx, rng):
             crcs.pop()
         if rng.random() < 0.05 and sizes:
             sizes.pop()
-        me = types.SimpleNamespace(fp=io.BytesIO(bytes(32) + body), afterheader=32, files=[], mp=False, _block_size=rng.choice([1, 3, 7, 1 << 20]),
-                                   header=types.SimpleNamespace(main_streams=types.SimpleNamespace(packinfo=types.SimpleNamespace(
-                                       crcs=crcs, packpos=packpos, packsizes=sizes, digestdefined=defs))))
-        me._read_digest = types.MethodType(py7zr.SevenZipFile._read_digest, me)
+        me = _bare_archive(fp=io.BytesIO(bytes(32) + body), afterheader=32, files=[], _block_size=rng.choice([1, 3, 7, 1 << 20]),
+                           header=types.SimpleNamespace(main_streams=types.SimpleNamespace(
+                               packinfo=types.SimpleNamespace(crcs=crcs, packpos=packpos, packsizes=sizes, digestdefined=defs),
+                               unpackinfo=types.SimpleNamespace(numfolders=0, folders=[]))))
         try:
-            r = py7zr.SevenZipFile.test(me)
+            r = me.test()
             got = [0, [] if r is None else [1 if r else 0]]
         except IndexError:
             got = [1, 6]
